@@ -359,11 +359,9 @@ func (vfs *OrefaFS) Link(oldname, newname string) error {
 		return &os.LinkError{Op: op, Old: oldname, New: newname, Err: vfs.err.NoSuchFile}
 	}
 
-	oChild.mu.Lock()
-	defer oChild.mu.Unlock()
-
-	nParent.mu.Lock()
-	defer nParent.mu.Unlock()
+	if !nParent.mode.IsDir() {
+		return &os.LinkError{Op: op, Old: oldname, New: newname, Err: vfs.err.NotADirectory}
+	}
 
 	if oChild.mode.IsDir() {
 		err := error(avfs.ErrOpNotPermitted)
@@ -373,6 +371,13 @@ func (vfs *OrefaFS) Link(oldname, newname string) error {
 
 		return &os.LinkError{Op: op, Old: oldname, New: newname, Err: err}
 	}
+
+	// oChild is a file and nParent a directory : they can't be the same node.
+	oChild.mu.Lock()
+	defer oChild.mu.Unlock()
+
+	nParent.mu.Lock()
+	defer nParent.mu.Unlock()
 
 	if nChildOk {
 		err := vfs.err.FileExists
